@@ -168,8 +168,13 @@ def run(run):
         run.check(ok_rate, 'C01.rate-recorded', case, str(fc.meta['rate']), str(r['rate_true']))
         ok, bad, n = audit.data_slots_ok(fc, src3)
         run.check(ok, 'C01.data-slot-bytes', case, {'first_bad_unit': bad, 'checked': n}, 'Enc(ideal unit) at UnitAddr')
-        ok2, shp = audit.readback_ok(r['path'], src3 if fc.F['dim'] == 3 else src3, fc.meta['rate'], dim=fc.F['dim'])
-        run.check(ok2, 'C01.readback-bitwise', case, {'shape': list(shp)}, 'ZFP image of the 4-padded source')
+        try:
+            ok2, shp = audit.readback_ok(r['path'], src3 if fc.F['dim'] == 3 else src3, fc.meta['rate'], dim=fc.F['dim'])
+            run.check(ok2, 'C01.readback-bitwise', case, {'shape': list(shp)}, 'ZFP image of the 4-padded source')
+        except BaseException as e:        # the library's own reader cannot read what its writer wrote
+            if isinstance(e, (KeyboardInterrupt, SystemExit, MemoryError)):
+                raise
+            run.fail('C01.readback-bitwise', case, f'{type(e).__name__}: {e}', 'ZFP image of the 4-padded source')
         os.remove(r['path'])
     # VDS / ZGY routes: the fixture files only (no offline writer for those formats)
     fixture_routes(run)
